@@ -1,6 +1,6 @@
 (** C11 — tick = fold readings in order, hold at last reading, report at output time. *)
 From Coq Require Import ZArith QArith List Bool.
-From FV Require Import Base.Num Model.Runtime Model.RuntimeCpp gen.RuntimePy Proofs.RuntimePy.
+From FV Require Import Base.Num Model.Runtime Model.RuntimeCpp gen.RuntimePy Proofs.RuntimePy gen.RuntimeCppGen Proofs.RuntimeCpp.
 Import ListNotations.
 
 Section C11.
@@ -55,6 +55,13 @@ End C11.
 Theorem C11_cpp_tick_is_spec : forall (N : Num) (SV R : Type) pmc smc ts max_dt h out rs,
   cpp_tick N SV R pmc smc ts max_dt h out rs = tick_spec N SV R pmc smc ts max_dt h out rs.
 Proof. exact cpp_tick_is_spec. Qed.
+
+(** the header's tick overloads have the modelled skeleton (regenerated fact), and its processUpdate is the model's *)
+Theorem C11_cpp_header_as_modelled : cpp_tick_skeleton_as_modelled = true /\
+  forall (N : Num) (SV : Type) pmc max_dt cur st out,
+    cpp_process_update_ctl N SV pmc max_dt cur st out = cpp_process_update N SV pmc max_dt cur st out /\
+    cpp_process_update_noctl N SV pmc max_dt cur st out = cpp_process_update N SV pmc max_dt cur st out.
+Proof. split; [reflexivity|]. intros; split; [apply gen_ctl_is_model | apply gen_noctl_is_model]. Qed.
 
 Print Assumptions C11_py_tick_is_spec.
 Print Assumptions C11_py_eq_cpp.
